@@ -141,6 +141,8 @@ def group_runs(g, tier):
             H('async:mem', walks=60 * k), H('async:mem', b=4096, names='multi', walks=15 * k, depth=2), H('async:ovl(mem,mem)', walks=30 * k), H('async:alt(zr,mem)', walks=20 * k, depth=2),
             H('async:phys', walks=30 * k, nz=True), H('async:phys', b=8193, walks=8 * k, nz=True), H('async:ovl(phys,phys)', walks=10 * k, nz=True),
             H('async:phys', walks=4, nz=False),   # keeps the known finding (zero-length read on async physical handles) under observation
+            dict(kind='twowriters', cfgs='mem;ovl(mem,mem);alt(zr,mem);ovl(mem,mem,mem)', scripts=60 * k, b=1, tspec='Trace_TwoWriters'),
+            dict(kind='twowriters', cfgs='mem;ovl(mem,mem)', scripts=20 * k, b=4097, tspec='Trace_TwoWriters'),
         ]
     if g == 'hostile':
         return [dict(kind='hostile', cfgs='alt(zr,mem);alt(zr/zs,phys);alt(zr,alt(zs,mem));alt(zr/zs/zt,ovl(mem,mem));phys;alt(zr,phys);alt(zr,ovl(phys,mem))', sample=150 if q else 5000, tspec='Trace_Confine')]
@@ -302,6 +304,8 @@ def run_group(g, tier, seed, use_cache=True):
                     raise ToolError('model checking of %s failed:\n%s' % (mname, mc.get('tail', '')))
                 mcs[mname] = mc
             s = harness(['emb', '--out', out])
+        elif r['kind'] == 'twowriters':
+            s = harness(['twowriters', '--cfgs', r['cfgs'], '--scripts', r['scripts'], '--seed', seed * 1000 + i, '--b', r['b'], '--out', out])
         elif r['kind'] == 'embdyn':
             mc = run_mc('MC_Embedded_r', 'MC_Embedded_r')
             if not mc['ok']:
